@@ -16,6 +16,7 @@ import (
 	"strings"
 
 	"github.com/caddyserver/caddy/v2/modules/caddyhttp"
+	"github.com/caddyserver/caddy/v2/modules/caddyhttp/encode"
 
 	"verif/harness/internal/core"
 )
@@ -64,6 +65,7 @@ type kase struct {
 	recMode     int // 0 = no recorder, 1..3 = rr mode 0..2
 	firstToEnc  []byte
 	ops         []op
+	h           *encode.Encode // set for the requests of an `mr` line: the one instance they share
 }
 
 var (
@@ -538,9 +540,12 @@ func (k *kase) setReqHeaders(h http.Header) {
 
 // runRecorded drives the real handler (observing encoders) with a rec as the wrapped writer.
 func (k *kase) runRecorded(ops []op) (*rec, *scriptResult, error) {
-	h, err := buildHandler(k.enc, k.prefer, k.min, k.m, k.mkey, true)
-	if err != nil {
-		return nil, nil, err
+	h := k.h
+	if h == nil {
+		var err error
+		if h, err = buildHandler(k.enc, k.prefer, k.min, k.m, k.mkey, true); err != nil {
+			return nil, nil, err
+		}
 	}
 	r := newRec()
 	var w http.ResponseWriter = r
@@ -615,6 +620,8 @@ func (p *prop) Run(line string) core.Outcome {
 		return p.runPx(f)
 	} else if len(f) == 7 && f[0] == "sc" {
 		return p.runSc(f)
+	} else if len(f) > 0 && f[0] == "mr" {
+		return p.runMr(f)
 	}
 	recMode := 0
 	if strings.HasPrefix(line, "rr ") {
@@ -631,6 +638,12 @@ func (p *prop) Run(line string) core.Outcome {
 	if !ok {
 		return core.Outcome{Impl: "bad-op", Tags: []string{"bad-op", "trivial"}}
 	}
+	return p.runKase(k)
+}
+
+// runKase: one request (an ordinary / rr case) through the real handler — k.h when set (a request of an
+// `mr` sequence: the Encode instance of that line), else the cached instance of the configuration.
+func (p *prop) runKase(k *kase) core.Outcome {
 	rcd, res, err := k.runRecorded(k.ops)
 	if err != nil {
 		return core.Outcome{Impl: "bad-op", Tags: []string{"bad-op:provision", "trivial"}}
